@@ -5,7 +5,10 @@ import (
 	"fmt"
 	"os"
 	"path/filepath"
+	"runtime/pprof"
 	"sort"
+	"strconv"
+	"time"
 )
 
 type checkFn func(c *Ctx, r *Report)
@@ -30,6 +33,21 @@ func main() {
 		usage()
 	}
 	id := os.Args[1]
+	if pf := os.Getenv("SMGO_CPUPROFILE"); pf != "" {
+		// development aid: CPU profile of a run, written when the run ends or after SMGO_CPUPROFILE_SECONDS
+		if f, err := os.Create(pf); err == nil {
+			pprof.StartCPUProfile(f)
+			defer pprof.StopCPUProfile()
+			if secs, err := strconv.Atoi(os.Getenv("SMGO_CPUPROFILE_SECONDS")); err == nil && secs > 0 {
+				go func() {
+					time.Sleep(time.Duration(secs) * time.Second)
+					pprof.StopCPUProfile()
+					f.Close()
+					os.Exit(3)
+				}()
+			}
+		}
+	}
 	if id == "extents" && len(os.Args) > 3 {
 		debugExtents(os.Args[2:])
 		return
